@@ -1,4 +1,5 @@
 import PgVerif.Proofs.Pos
+import PgVerif.Proofs.GLRSound
 /-!
 # C08 — parse trees are positionally faithful and lossless
 
@@ -7,7 +8,8 @@ spans are ordered pairs inside the input, children lie inside their parent,
 siblings are in input order and do not overlap (`C08_lr_posOK`); the leaves are
 exactly the token edges read left to right, each starting where layout skipping
 from the previous leaf's end arrives — so leaves plus the layout between them
-tile the input (`C08_lr_lossless`). The same checker `Tree.posOK` and the leaf
+tile the input (`C08_lr_lossless`; for every tree of the GLR driver model's packed
+forest: `C08_glr_model_lossless`). The same checker `Tree.posOK` and the leaf
 chain checker run on every implementation tree (LR and GLR) in the harness.
 -/
 namespace Pg
@@ -39,6 +41,20 @@ theorem C08_lr_lossless (g : Grammar) (T : Table) (inp : Input) (hw : T.wf g = t
   have := (derivesB_iff g inp _ 0 e t).mpr h1
   simp only [Tree.derivesB, Bool.and_eq_true, beq_iff_eq] at this
   exact ⟨this.2, by rw [← h2]; exact h3 rfl⟩
+
+/-- Lossless, GLR: the leaves of every tree of the packed forest of the GLR driver model, read left to
+right, are token edges chained through layout skipping from position 0 to an end after which only
+layout remains — for every well-formed table, input with idempotent layout skipping, lexical mode and
+fuel. (Nothing is claimed about the spans recorded in interior nodes of GLR trees: F-POS-3.) -/
+theorem C08_glr_model_lossless (g : Grammar) (T : Table) (inp : Input) (hw : T.wf g = true)
+    (hidem : ∀ p, inp.skip (inp.skip p) = inp.skip p) (lexDis : Bool) (fuel : Nat) (sF : GLR.GState)
+    (h : GLR.parseGLR g T inp true lexDis fuel = .forest sF)
+    (a : Nat) (ha : a ∈ sF.accepted) (l : Nat) (hl : l ∈ sF.parents a) (t : Tree) (ht : GLR.TreeOf sF l t) :
+    ∃ e, chain inp 0 t.yield = some e ∧ inp.skip e = inp.len := by
+  obtain ⟨e, h1, h2⟩ := (GLR.parseGLR_forest_sound hw hidem true lexDis fuel sF h a ha l hl t ht).2 rfl
+  have := (derivesB_iff g inp _ 0 e t).mpr h1
+  simp only [Tree.derivesB, Bool.and_eq_true, beq_iff_eq] at this
+  exact ⟨e, this.2, h2⟩
 
 /-- Non-vacuity: a well positioned tree with an empty first child. -/
 example : (Tree.node 1 0 3 [.node 2 0 0 [], .leaf 1 1 3]).posOK = true := by decide
